@@ -30,6 +30,7 @@ import (
 	"github.com/taurusgroup/multi-party-sig/pkg/ecdsa"
 	"github.com/taurusgroup/multi-party-sig/pkg/math/curve"
 	"github.com/taurusgroup/multi-party-sig/pkg/party"
+	"github.com/taurusgroup/multi-party-sig/pkg/pool"
 	"github.com/taurusgroup/multi-party-sig/pkg/protocol"
 	"github.com/taurusgroup/multi-party-sig/protocols/cmp"
 	"github.com/taurusgroup/multi-party-sig/protocols/cmp/presign"
@@ -60,6 +61,11 @@ type c03Case struct {
 	// and delivered to the ORIGINAL recipient: "to-cleared" (empty To: the form two-party sessions use), "to-other" (a third
 	// participant), "to-sender" (E itself), "to-explicit" (the recipient's id where the sender had left To empty); "" = untouched
 	Hdr string `json:"header,omitempty"`
+	// dealing cases (Field "<dealing...>", c03_deal.go): the recipient whose share is special, and the threshold of the session
+	Victim string `json:"victim,omitempty"`
+	Thr    int    `json:"threshold,omitempty"`
+	// Pool: the session runs with a worker pool of its own (c03Proto.PoolStart; only for alterations that cannot reach a pool worker)
+	Pool bool `json:"pool,omitempty"`
 }
 
 func (cs c03Case) kind() string {
@@ -146,7 +152,10 @@ type c03Proto struct {
 	Heavy  bool // CMP: seconds per run
 	SID    []byte
 	Start  func(id party.ID) protocol.StartFunc
-	Leader map[party.ID]bool
+	// PoolStart (optional): the same session with the library's worker pool; used by runs in which every message is well-formed
+	// (dealing cases): a panic on a pool worker could not be recovered by the handler and would end the harness
+	PoolStart func(id party.ID, pl *pool.Pool) protocol.StartFunc
+	Leader    map[party.ID]bool
 	// Judge returns the reasons why the honest finishers' results are WRONG (nil = fine); sigs = #signatures judged
 	Judge  func(o *c03Oracle, out *c03Outcome) []string
 	Moduli [][]byte
@@ -583,13 +592,15 @@ func c03ProtoCMPKeygen(m *c03Mat) *c03Proto {
 	ids := m.ids
 	return &c03Proto{Name: "cmp-keygen", IDs: ids, Heavy: true, SID: []byte("c03-ck"),
 		Start: func(id party.ID) protocol.StartFunc { return cmp.Keygen(curve.Secp256k1{}, id, ids, 1, nil) },
+		PoolStart: func(id party.ID, pl *pool.Pool) protocol.StartFunc { return cmp.Keygen(curve.Secp256k1{}, id, ids, 1, pl) },
 		Judge: c03JudgeKeys(c03CmpKeyView, ids, 1, nil)}
 }
 
 func c03ProtoCMPRefresh(m *c03Mat) *c03Proto {
 	ids := m.ids
 	return &c03Proto{Name: "cmp-refresh", IDs: ids, Heavy: true, SID: []byte("c03-cr"), Moduli: m.moduli,
-		Start: func(id party.ID) protocol.StartFunc { return cmp.Refresh(m.freshCMP(id), nil) },
+		Start:     func(id party.ID) protocol.StartFunc { return cmp.Refresh(m.freshCMP(id), nil) },
+		PoolStart: func(id party.ID, pl *pool.Pool) protocol.StartFunc { return cmp.Refresh(m.freshCMP(id), pl) },
 		Judge: c03JudgeKeys(c03CmpKeyView, ids, 1, func() []byte { return c03BinOf(m.cmpCfg[ids[0]].PublicPoint()) })}
 }
 
@@ -1200,6 +1211,9 @@ func c03SplitAlt(alt string) (string, string, bool) {
 // c03Run executes one case: E's messages of (round, kind) are held back until nothing else can be delivered ("rushing"),
 // altered, released; the run continues until no envelope is in flight.
 func c03Run(p *c03Proto, cs c03Case) (out *c03Outcome) {
+	if c03IsDeal(cs) {
+		return c03RunDeal(p, cs)
+	}
 	out = &c03Outcome{Case: cs}
 	t0 := time.Now()
 	defer func() {
@@ -1208,6 +1222,11 @@ func c03Run(p *c03Proto, cs c03Case) (out *c03Outcome) {
 		}
 		out.CPUSec = time.Since(t0).Seconds()
 	}()
+	if cs.Pool {
+		pp, done := c03Pooled(p)
+		defer done()
+		p = pp
+	}
 	E := party.ID(cs.Cheater)
 	rng := rand.New(rand.NewSource(cs.Seed))
 	s := p.build(rng, func(from party.ID, e *Env) []*Env {
@@ -1559,14 +1578,54 @@ type c03Plan struct {
 	// alteration combined with every payload alteration; 3 = each alone and EVERY one combined with every payload alteration.
 	// With Headers > 0 the p2p scalars also get the "consistent at another evaluation point" alterations.
 	Headers int
+	// Deal: dealing variants (c03_deal.go) of the key generation / refresh protocols, DealPositions cheater positions
+	// (0 = all); DealOnly: no field catalogue for this protocol, only the dealing cases.  The dealing cases are drawn from
+	// their own seeded stream, so the catalogue cases of a run do not depend on them.
+	Deal          []string
+	DealPositions int
+	DealOnly      bool
+	OnlyAlts      []string // if set: only these alterations of the selected fields
+	UsePool       bool     // the reference run and the cases run with a worker pool (c03Case.Pool)
 }
 
 // alterations of a p2p scalar that keep it consistent with what E sent elsewhere (added when plan.Headers > 0)
 var c03P2PScalarAlts = []string{"copy-recipient", "interp0"}
 
 func c03Cases(c *ctx, p *c03Proto, plan c03Plan) []c03Case {
+	var deal []c03Case
+	if len(plan.Deal) > 0 && c03DealSpecOf(p.Name) != nil {
+		h := int64(0)
+		for _, ch := range p.Name {
+			h = h*131 + int64(ch)
+		}
+		deal = c03DealCases(rand.New(rand.NewSource(c.res.Seed*1000003+h)), c.res.Property, p, 1, true, plan.Deal, plan.DealPositions)
+	}
+	if plan.DealOnly {
+		return deal
+	}
+	cases := c03CatalogueCases(c, p, plan)
+	return append(cases, deal...)
+}
+
+// c03Pooled: p with a worker pool of its own (if the protocol has a pooled start function); done() tears the pool down
+func c03Pooled(p *c03Proto) (*c03Proto, func()) {
+	if p.PoolStart == nil {
+		return p, func() {}
+	}
+	pl := pool.NewPool(4)
+	q := *p
+	q.Start = func(id party.ID) protocol.StartFunc { return p.PoolStart(id, pl) }
+	return &q, pl.TearDown
+}
+
+func c03CatalogueCases(c *ctx, p *c03Proto, plan c03Plan) []c03Case {
 	rng := c.res.Rng
-	ref := c03RunHonest(p, 5)
+	refP, refDone := p, func() {}
+	if plan.UsePool {
+		refP, refDone = c03Pooled(p)
+	}
+	ref := c03RunHonest(refP, 5)
+	refDone()
 	var cases []c03Case
 	ids := party.NewIDSlice(p.IDs)
 	npos := len(ids)
@@ -1620,6 +1679,17 @@ func c03Cases(c *ctx, p *c03Proto, plan c03Plan) []c03Case {
 			if f.Class == "message" && !plan.MsgLevel {
 				alts = nil
 			}
+			if plan.OnlyAlts != nil {
+				var keep []string
+				for _, a := range alts {
+					for _, w := range plan.OnlyAlts {
+						if a == w {
+							keep = append(keep, a)
+						}
+					}
+				}
+				alts = keep
+			}
 			if plan.AltsPerField > 0 && len(alts) > plan.AltsPerField {
 				if plan.AltsPerField >= 4 {
 					alts = alts[:plan.AltsPerField]
@@ -1651,7 +1721,7 @@ func c03Cases(c *ctx, p *c03Proto, plan c03Plan) []c03Case {
 				alts = append(append([]string{}, alts...), c03P2PScalarAlts...)
 			}
 			add := func(path, alt string) {
-				cs := c03Case{Proto: p.Name, Cheater: string(E), Round: f.Round, Bcast: f.Bcast, Field: f.Field, Path: path, Alt: alt, Seed: rng.Int63()}
+				cs := c03Case{Proto: p.Name, Cheater: string(E), Round: f.Round, Bcast: f.Bcast, Field: f.Field, Path: path, Alt: alt, Seed: rng.Int63(), Pool: plan.UsePool}
 				if len(p.IDs) != 3 || p.Two {
 					for _, id := range ids {
 						cs.Parties = append(cs.Parties, string(id))
@@ -1832,21 +1902,31 @@ func runC03(c *ctx) {
 		"(boundary values, copies from other senders/rounds/fields, fresh valid-looking values, structural damage, recipient/round/sender substitution, " +
 		"per-recipient different alterations); p2p messages also with the recipient header To altered (cleared / another party / the sender / made explicit), alone and combined " +
 		"with the payload alterations, delivered to the original recipient; p2p scalars also replaced by the value sent to another recipient and by the interpolation at 0 of " +
-		"the values sent to all recipients; quick: FROST keygen, refresh, sign (+taproot) and Doerner every field x 6 (x every header alteration), CMP sign every field x 2 " +
+		"the values sent to all recipients; key generation / refresh also with E dealing ANOTHER polynomial consistently (commitment and all shares rewritten: f+c*x with c random or such that " +
+		"f'(victim)=0 with the victim's share 0 / wrong, degree t-1, t+1, t+2; FROST n=3,t=1 and n=4,t=2 by message rewriting, CMP through a session proxy); the verification primitives " +
+		"Point.Equal / IsIdentity / Scalar.Equal / IsZero on every representation of the identity against arbitrary values, judged by the reference; quick: FROST keygen, refresh, sign (+taproot) and Doerner every field x 6 (x every header alteration), CMP sign every field x 2 " +
 		"(one header alteration per field), CMP presign-online every field; " +
 		"non-trivial = the alteration applied and changed delivered bytes; distinct by (case key, cheater, path)"
 	orc := newC03Oracle(c)
 	if c.replay != "" {
+		var prim c03PrimReplay
+		if err := readJSON(c.replay, &prim); err == nil && prim.Primitive != "" {
+			c03PrimReplayRun(c, orc, prim)
+			return
+		}
 		var cs c03Case
 		if err := readJSON(c.replay, &cs); err != nil {
 			c.res.Note("cannot read replay file: %v", err)
 			return
 		}
-		m := c03Material(c, c03IsCMP(cs.Proto), cs.Proto == "cmp-presign-online")
+		m := c03Material(c, c03IsCMP(cs.Proto) && cs.Proto != "cmp-keygen", cs.Proto == "cmp-presign-online")
+		if cs.Proto == "cmp-keygen" {
+			usePrimeCache()
+		}
 		if cs.Proto == "cmp-sign" && len(cs.Parties) > 0 {
 			m.signers = idsOf(cs.Parties...)
 		}
-		p := c03ProtoByName(m, cs.Proto)
+		p := c03ProtoForCase(m, cs)
 		if p == nil || len(m.errs) > 0 {
 			c.res.Note("replay: cannot set up %q: %v", cs.Proto, m.errs)
 			return
@@ -1863,7 +1943,7 @@ func runC03(c *ctx) {
 		c.res.Note("set-up session failed: %s", e)
 	}
 	light := []string{"frost-keygen", "taproot-frost-keygen", "frost-refresh", "taproot-frost-refresh", "frost-sign", "taproot-frost-sign", "doerner-keygen", "doerner-sign"}
-	heavy := []string{"cmp-sign", "cmp-presign-online"}
+	heavy := []string{"cmp-sign", "cmp-presign-online", "cmp-keygen"} // quick: cmp-keygen only with the dealing cases
 	if only != "" {
 		light, heavy = strings.Split(only, ","), nil
 	}
@@ -1892,19 +1972,32 @@ func runC03(c *ctx) {
 			switch p.Name {
 			case "cmp-sign":
 				return c03Plan{AltsPerField: 3, Instances: 1, Positions: 1, Splits: true, SplitBcast: true, MsgLevel: true, Headers: 2}
-			case "cmp-presign", "cmp-keygen", "cmp-refresh":
+			case "cmp-keygen", "cmp-refresh":
+				return c03Plan{AltsPerField: 2, Instances: 1, Positions: 1, Splits: true, SplitBcast: true, MsgLevel: true, Headers: 1, Deal: c03DealVariants}
+			case "cmp-presign":
 				return c03Plan{AltsPerField: 2, Instances: 1, Positions: 1, Splits: true, SplitBcast: true, MsgLevel: true, Headers: 1}
 			case "cmp-presign-full":
 				return c03Plan{AltsPerField: 2, Instances: 1, Positions: 1, OnePerPart: true, AllOfRound: 8, Splits: true}
 			}
-			return c03Plan{Splits: true, MsgLevel: true, Instances: 3, Headers: 3}
+			return c03Plan{Splits: true, MsgLevel: true, Instances: 3, Headers: 3, Deal: c03DealVariants}
+		}
+		if p.Name == "cmp-keygen" {
+			// the victim of a root of the dealt polynomial: consistent share 0 (accepted) and a wrong share (refused by the victim)
+			return c03Plan{DealOnly: true, Deal: []string{"root-at-victim", "root-at-victim+wrong-share", "redeal+wrong-share"}, DealPositions: 1}
 		}
 		if p.Heavy {
 			return c03Plan{AltsPerField: 2, Instances: 1, Positions: 1, Splits: false, MsgLevel: true, Headers: 1}
 		}
-		return c03Plan{AltsPerField: 6, Instances: 2, Splits: true, MsgLevel: true, Headers: 3}
+		return c03Plan{AltsPerField: 6, Instances: 2, Splits: true, MsgLevel: true, Headers: 3, Deal: c03DealVariants}
 	}
-	c03Sweep(c, m, names, planOf, func(p *c03Proto, out *c03Outcome) { c03Judge(c, orc, p, out) })
+	judge := func(p *c03Proto, out *c03Outcome) { c03Judge(c, orc, p, out) }
+	if only == "" {
+		c03PrimitivesAll(c, orc, rand.New(rand.NewSource(c.res.Seed*7777+3)))
+	}
+	c03Sweep(c, m, names, planOf, judge)
+	if only == "" {
+		c03DealExtra(c, "C03", judge)
+	}
 	for op, k := range orc.fallback {
 		c.res.Note("FALLBACK textbook check used %d times because model op %s was unavailable", k, op)
 	}
@@ -1937,6 +2030,14 @@ func c03Judge(c *ctx, orc *c03Oracle, p *c03Proto, out *c03Outcome) {
 		c.res.Sample(4, map[string]interface{}{"case": cs, "outcome": c03Describe(out)})
 	}
 	bad := p.Judge(orc, out)
+	if c03IsDeal(cs) && out.Applied && c03DealConsistent(cs.Alt) {
+		// E's messages are those of an honest dealer with other randomness: nobody has a reason to refuse them
+		for _, hp := range out.Honest {
+			if hp.Res == nil && hp.ProtoErr && hp.Panic == "" && !hp.Hung && !strings.HasPrefix(hp.Inner, "aborted by other party") {
+				bad = append(bad, fmt.Sprintf("%s refused a consistent dealing: %.120s", hp.ID, hp.ErrText))
+			}
+		}
+	}
 	if len(bad) > 0 {
 		c.res.Violate("property", cs.Key, fmt.Sprintf("cheater %s altered %s (%s) of its round-%d %s message; %s [%s]",
 			cs.Cheater, cs.Path, cs.Alt, cs.Round, cs.kind(), strings.Join(bad, "; "), c03Describe(out)), cs)
